@@ -105,13 +105,22 @@ func main() {
 	do("cfg")
 	R := r.R
 	scheds := r.Scale(12, 300)
-	for s := 0; s < scheds; s++ {
+	// after the random schedules (their stream stays what it was): directed schedules, see below
+	const nDirected = 3
+	for s := 0; s < scheds+nDirected; s++ {
+		directed := s >= scheds
 		history = history[:1]
 		n := R.Range(4, 7)
+		if directed {
+			n = 4
+		}
 		powers := make([]int64, n)
 		total := int64(0)
 		for i := range powers {
 			powers[i] = []int64{1, 1, 1, 2, 3}[R.Intn(5)]
+			if directed {
+				powers[i] = 1
+			}
 			total += powers[i]
 		}
 		// Byzantine set with < 1/3 of the power
@@ -122,6 +131,9 @@ func main() {
 				byz[i] = true
 				bp += powers[i]
 			}
+		}
+		if directed { // one validator that votes a little and then falls silent
+			byz = map[int]bool{(s - scheds) % 4: true}
 		}
 		var ps, as, bs []string
 		tmp := nodekit.NewChain(powers, 0, false)
@@ -135,6 +147,9 @@ func main() {
 		addr := func(i int) string { return as[i] }
 		tmp.Close()
 		skip := R.Chance(50)
+		if directed {
+			skip = false
+		}
 		do(fmt.Sprintf("net n=%d powers=%s addrs=%s skip=%s byz=%s", n, strings.Join(ps, ","), strings.Join(as, ","), vh.B01(skip), strings.Join(bs, ",")))
 		r.Count(fmt.Sprintf("net.n=%d.byz=%d", n, len(byz)))
 		var honest []int
@@ -251,6 +266,162 @@ func main() {
 			timeouts[i] = append(timeouts[i], "1 0 NewHeight")
 		}
 		steps := R.Range(500, 2000)
+		if directed {
+			steps = 0
+			// Two honest validators end up locked on DIFFERENT blocks, by delays alone: A locks X in round
+			// 0 (the others miss the polka), B locks Y in round 1 (A and C miss that polka; the fourth
+			// validator D votes for Y in round 1 and is never heard of again), and the prevote that
+			// completes round 1's polka reaches A only in round 2. A polka for another block in a round
+			// after the lock releases the lock - also when it completes late; then the fair suffix
+			// terminates. If A kept its lock, A would prevote X and B would prevote Y for ever.
+			var D int
+			for x := range byz {
+				D = x
+			}
+			idxOf := func(a []byte) int {
+				for i := range as {
+					if as[i] == fmt.Sprintf("%x", a) {
+						return i
+					}
+				}
+				return -1
+			}
+			deliver := func(j int, match func(op string, from int) bool) {
+				for q := 0; q < len(pool); q++ {
+					if !pool[q].seen[j] && pool[q].from != j && match(pool[q].op, pool[q].from) {
+						pool[q].seen[j] = true
+						run(j, pool[q].op)
+						drain(j)
+					}
+				}
+			}
+			isVote := func(t int, rd int, from int) func(string, int) bool {
+				return func(op string, f int) bool {
+					return f == from && strings.HasPrefix(op, fmt.Sprintf("vote t=%d h=1 r=%d ", t, rd))
+				}
+			}
+			blockMsgs := func(name string) func(string, int) bool {
+				return func(op string, f int) bool {
+					return strings.HasPrefix(op, "proposal "+name+" ") || strings.HasPrefix(op, "parts "+name+" ")
+				}
+			}
+			dvote := func(t int, rd int, blk string, to ...int) {
+				op := fmt.Sprintf("vote t=%d h=1 r=%d idx=%d addr=%s block=%s ok=1 peer=pb%d", t, rd, D, addr(D), blk, D)
+				seen := map[int]bool{}
+				for _, j := range to {
+					seen[j] = true
+					run(j, op)
+					drain(j)
+				}
+				pool = append(pool, pend{op, D, seen})
+			}
+			fire := func(j int, t string) {
+				run(j, "timeout "+t)
+				drain(j)
+			}
+			// the block proposed in round rd: the honest proposer's own, or one D makes
+			propose := func(rd int, P int, name string) string {
+				if P != D {
+					for q := range pool {
+						if pool[q].from == P && strings.HasPrefix(pool[q].op, "proposal ") && strings.Contains(pool[q].op, fmt.Sprintf(" r=%d ", rd)) {
+							return strings.Fields(pool[q].op)[1]
+						}
+					}
+					return ""
+				}
+				do(fmt.Sprintf("mk %s h=1 valid=1 proposer=%d by=%d", name, D, honest[0]))
+				pool = append(pool, pend{fmt.Sprintf("proposal %s h=1 r=%d pol=-1 polblock=- signer=%d bad=0", name, rd, D), D, map[int]bool{}})
+				pool = append(pool, pend{fmt.Sprintf("parts %s h=1 r=%d", name, rd), D, map[int]bool{}})
+				return name
+			}
+			for _, j := range honest {
+				fire(j, "1 0 NewHeight")
+			}
+			vals := nodes[honest[0]].C.CS.GetRoundState().Validators.Copy()
+			P0 := idxOf(vals.Proposer().Address)
+			vals.IncrementAccum(1)
+			P1 := idxOf(vals.Proposer().Address)
+			var A, B, C int
+			A = -1
+			for _, j := range honest {
+				if j != P1 && A < 0 {
+					A = j
+				}
+			}
+			B = P1
+			if P1 == D {
+				for _, j := range honest {
+					if j != A {
+						B = j
+						break
+					}
+				}
+			}
+			for _, j := range honest {
+				if j != A && j != B {
+					C = j
+				}
+			}
+			X := propose(0, P0, "dX")
+			ok := X != ""
+			if ok {
+				for _, j := range honest {
+					deliver(j, blockMsgs(X)) // everybody prevotes X
+				}
+				deliver(A, isVote(1, 0, B))
+				deliver(A, isVote(1, 0, C)) // A: polka, precommits and locks X
+				deliver(B, isVote(1, 0, A))
+				deliver(C, isVote(1, 0, A))
+				dvote(1, 0, "-", B, C) // B and C: +2/3 of anything, no polka
+				fire(B, "1 0 PrevoteWait")
+				fire(C, "1 0 PrevoteWait") // they precommit nil
+				for _, j := range honest {
+					for _, k := range honest {
+						deliver(j, isVote(2, 0, k))
+					}
+					fire(j, "1 0 PrecommitWait") // round 1
+				}
+				if P1 != D {
+					fire(P1, "1 1 Propose") // (a proposer that waits for its own timeout has proposed by now)
+				}
+				Y := propose(1, P1, "dY")
+				ok = Y != "" && Y != X
+				if ok {
+					for _, j := range honest {
+						deliver(j, blockMsgs(Y))
+						fire(j, "1 1 Propose") // A prevotes its lock, B and C the proposal
+					}
+					deliver(B, isVote(1, 1, C))
+					dvote(1, 1, Y, B) // B: polka for Y, precommits and locks Y; nobody else hears D
+					deliver(C, isVote(1, 1, B))
+					deliver(C, isVote(1, 1, A))
+					deliver(A, isVote(1, 1, B))
+					deliver(A, isVote(1, 1, C))
+					fire(A, "1 1 PrevoteWait")
+					fire(C, "1 1 PrevoteWait") // no polka seen: they precommit nil
+					for _, j := range honest {
+						for _, k := range honest {
+							deliver(j, isVote(2, 1, k))
+						}
+						fire(j, "1 1 PrecommitWait") // round 2
+					}
+					// the delayed prevote of D reaches A: round 1's polka for Y is complete in A's view
+					deliver(A, isVote(1, 1, D))
+					lb := func(j int) string {
+						for _, f := range strings.Fields(nodes[j].Digest()) {
+							if strings.HasPrefix(f, "lb=") {
+								return f[3:]
+							}
+						}
+						return "?"
+					}
+					r.Count(fmt.Sprintf("directed.two-locks.A-lock-after-late-polka=%v.B-locked-Y=%v", lb(A) != "-", lb(B) == Y))
+				}
+			}
+			if !ok {
+				r.Count("directed.two-locks.setup-incomplete")
+			}
+		}
 		for st := 0; st < steps; st++ {
 			c := R.Intn(100)
 			i := honest[R.Intn(len(honest))]
